@@ -74,6 +74,67 @@ Proof. exact vending_nonadmin_rejected_after_history. Qed.
 (* PART 2 — authorization models (model/Auth.v)                            *)
 (* ====================================================================== *)
 
+(* ---- the table in one statement ---- *)
+(* `reserved_to st m` (model/Auth.v, total over every message of every contract kind) is
+   the role the property sentence reserves message m to; `holds_role st sender r` says
+   whether `sender` holds role r in state st.  For every contract, state, message and
+   sender: a sender who does not hold the role is refused — and, the state being
+   arbitrary, this holds after every history (before/after start, frozen or not, after
+   any hand-over), where the refused call changes nothing. *)
+Theorem C05_table : forall st env sender m,
+  holds_role st sender (reserved_to st m) = false -> auth_step st env sender m = Err.
+Proof. exact table_sound. Qed.
+
+Theorem C05_table_in_every_reachable_state : forall st history env sender m,
+  holds_role (run_auth st history) sender (reserved_to (run_auth st history) m) = false ->
+  auth_step (run_auth st history) env sender m = Err /\
+  apply_auth (run_auth st history) (env, sender, m) = run_auth st history.
+Proof. exact table_sound_after_history. Qed.
+
+(* the rows of the table, spelled out (what `reserved_to` answers) *)
+Example C05_table_rows :
+  (* minters *)
+  (forall f, f <> FBase -> forall s, map (fun k => reserved_to (AMinter f s) (MM k)) [KMint; KPurge; KShuffle] =
+     map (fun k => if has_msg f k then RAnyone else RNobody) [KMint; KPurge; KShuffle]) /\
+  (forall s, map (fun k => reserved_to (AMinter FOpenEdition s) (MM k))
+       [KSetWhitelist; KUpdateMintPrice; KUpdateStartTime; KUpdateEndTime; KUpdateStartTradingTime;
+        KUpdatePerAddressLimit; KMintTo; KBurnRemaining]
+     = repeat RMinterAdmin 8) /\
+  (forall s, map (fun k => reserved_to (AMinter FTokenMerge s) (MM k))
+       [KUpdateStartTime; KUpdateStartTradingTime; KUpdatePerAddressLimit; KMintTo; KMintFor; KBurnRemaining]
+     = repeat RMinterAdmin 6) /\
+  (forall s, map (fun k => reserved_to (AMinter FBase s) (MM k)) [KMint; KUpdateStartTradingTime]
+     = repeat RCollectionCreatorNow 2) /\
+  (* collections (sg721-base) *)
+  (forall s id a e, map (fun c => reserved_to (AColl Sg721Base s) (CM c))
+       [CMint id a; CUpdateStartTradingTime; CUpdateOwnership (TransferOwnership a e); CUpdateOwnership RenounceOwnership;
+        CUpdateOwnership AcceptOwnership; CUpdateCollectionInfo (Some a); CFreezeCollectionInfo;
+        CTransferNft id a; CSendNft id a; CBurn id; CApprove id a; CRevoke id a; CApproveAll a; CRevokeAll a]
+     = [RCollectionMinter; RCollectionMinter; RCollectionMinter; RCollectionMinter; RProposedMinter; RCreator; RCreator;
+        RTokenSender id; RTokenSender id; RTokenSender id; RTokenApprover id; RTokenApprover id; RAnyone; RAnyone]) /\
+  (forall s id, map (fun c => reserved_to (AColl Sg721Updatable s) (CM c))
+       [CFreezeTokenMetadata; CUpdateTokenMetadata id; CEnableUpdatable; CUpdateOwnership AcceptOwnership]
+     = [RCreator; RCreator; RCreator; RNobody]) /\
+  (* whitelists *)
+  (forall s l, map (fun x => reserved_to (AWl WPlain s) (WM x))
+       [WOp WUpdateStartTime; WOp WUpdateEndTime; WOp WAddMembers; WOp WRemoveMembers; WOp WUpdatePerAddressLimit;
+        WOp WIncreaseMemberLimit; WUpdateAdmins l; WFreeze]
+     = [RWhitelistAdmin; RWhitelistAdmin; RWhitelistAdmin; RWhitelistAdmin; RWhitelistAdmin; RAnyone;
+        RWhitelistAdminWhileMutable; RWhitelistAdminWhileMutable]) /\
+  (forall s l, map (fun x => reserved_to (AWl WTieredMerkle s) (WM x)) [WOp WUpdateStageConfig; WOp WAddMembers; WUpdateAdmins l; WFreeze]
+     = [RWhitelistAdmin; RNobody; RWhitelistAdminWhileMutable; RWhitelistAdminWhileMutable]) /\
+  (forall s l, reserved_to (AWl WImmutable s) (WM (WUpdateAdmins l)) = RNobody) /\
+  (* splits, factories, airdrop, anything undecodable *)
+  (forall s n, reserved_to (ASplits s) (SM SDistribute) = RSplitsDistributor /\ reserved_to (ASplits s) (SM (SUpdateAdmin n)) = RSplitsAdmin) /\
+  (forall p, reserved_to (AFactory p) FCreateMinter = RAnyone) /\
+  (forall w, reserved_to AAirdrop (AClaim w) = RSignedWallet w) /\
+  (forall st, reserved_to st XUndecodable = RNobody).
+Proof.
+  repeat split; try reflexivity.
+  - intros f Hf s. destruct f; try reflexivity. contradiction Hf. reflexivity.
+  - destruct st; reflexivity.
+Qed.
+
 (* ---- open-edition, token-merge and base minters ---- *)
 (* the handlers that compare the sender with Config.extension.admin, family by family
    (vending repeated for comparison with Part 1), and the two base-minter handlers that
@@ -387,6 +448,9 @@ Print Assumptions C05_vending_reserved_kinds.
 Print Assumptions C05_vending_admin_never_changes.
 Print Assumptions C05_vending_admin_never_changes_history.
 Print Assumptions C05_vending_non_admin_rejected_in_every_reachable_state.
+Print Assumptions C05_table.
+Print Assumptions C05_table_in_every_reachable_state.
+Print Assumptions C05_table_rows.
 Print Assumptions C05_minter_reserved_handlers_table.
 Print Assumptions C05_minter_reserved_only_admin.
 Print Assumptions C05_base_minter_only_collection_creator.
